@@ -523,3 +523,25 @@ _RULE_ADD6['C12'] = _RULE_ADD6['C11']
 _RULE_ADD6['C01'] = _RULE_ADD6['C20'] + _RULE_ADD6['C08']
 for _p, _t in _RULE_ADD6.items():
     PROPS[_p]['rule'] = PROPS[_p]['rule'] + _t
+
+# features added after the thirteenth round
+for _p, _m in {'C08': {'stations_hunted_while_handlers_run': 60}, 'C11': {'requests_to_another_server_naming_the_address_in_ciaddr': 80},
+               'C12': {'requests_to_another_server_naming_the_address_in_ciaddr': 80}, 'C13': {'starthunt_under_another_targets_address': 120},
+               'C16': {'frames_larger_than_a_standard_frame': 150}, 'C19': {'other_icmp_types_carrying_the_identifier': 500}}.items():
+    PROPS[_p]['min_obs'] = dict(PROPS[_p]['min_obs'])
+    PROPS[_p]['min_obs']['quick'] = dict(PROPS[_p]['min_obs'].get('quick', {}), **_m)
+_RULE_ADD7 = {
+    'C03': ' The DNS query encoder is read back through every header view (QR, OpCode, AA, TC, RD, RA, Z, ResponseCode, the four counts) against the encoded flags word.',
+    'C07': ' One echo call in five is given an address the IPv4 header cannot carry (other family, unset, IPv4-mapped, zoned) on one side or both: an error and no frame are demanded.',
+    'C08': ' Two handler stacks in three are at work: some clients captured and hunted over ARP and ICMPv6 while the frames arrive. A stack whose handler panicked is abandoned, not closed.',
+    'C11': ' A REQUEST may name another server without a requested address option, its address in ciaddr only.',
+    'C13': ' A station may be hunted under the address another target has or had (an address that changed hands): hunts are per MAC.',
+    'C16': ' The caller\'s buffer holds up to 40 000 bytes: frames larger than a standard Ethernet frame (baby giants, jumbo MTU, receive offload) are measured like any other.',
+    'C19': ' Extras include other ICMP messages (errors, timestamp, router / neighbour discovery, MLD, unknown types) whose bytes 4..5 equal the identifier of the pending ping.',
+    'C20': ' ICMP4Redirect views come with tables of exactly the announced size (entry sizes 1, 2, 3, 4 and 10 words).',
+    'C01': ' Frame payloads reach 1472..17000 bytes (UDP) and 1440..32000 bytes (TCP) now and then.',
+}
+_RULE_ADD7['C12'] = _RULE_ADD7['C11']
+_RULE_ADD7['C02'] = _RULE_ADD7['C01']
+for _p, _t in _RULE_ADD7.items():
+    PROPS[_p]['rule'] = PROPS[_p]['rule'] + _t
